@@ -371,13 +371,25 @@ pub fn gen_script(rng: &mut StdRng) -> Script {
     }
 }
 
+#[derive(Default)]
+pub struct WakeCount(pub std::sync::atomic::AtomicUsize);
+impl std::task::Wake for WakeCount {
+    fn wake(self: Arc<Self>) {
+        self.0.fetch_add(1, std::sync::atomic::Ordering::SeqCst);
+    }
+    fn wake_by_ref(self: &Arc<Self>) {
+        self.0.fetch_add(1, std::sync::atomic::Ordering::SeqCst);
+    }
+}
+
 pub fn run_sequence(adapter: &str, seed: u64, n_ops: usize) -> (Vec<(String, String)>, (usize, usize)) {
     let mut rng = StdRng::seed_from_u64(seed);
     let script = gen_script(&mut rng);
     let prefix: Vec<u8> = if adapter == "rewind" { (0..[0usize, 1, 5, 24, 40][rng.gen_range(0..5)]).map(|i| 200u8.wrapping_sub(i as u8)).collect() } else { vec![] };
     let ep = Endpoint::new(script.clone());
     let mut dut = build(adapter, &ep, &prefix);
-    let waker = futures_util::task::noop_waker();
+    let wake_count = Arc::new(WakeCount::default());
+    let waker = std::task::Waker::from(wake_count.clone());
     let mut cx = Context::from_waker(&waker);
     let mut problems = Vec::new();
     // reference: what the caller must have received so far / what the inner must have accepted so far
@@ -396,13 +408,17 @@ pub fn run_sequence(adapter: &str, seed: u64, n_ops: usize) -> (Vec<(String, Str
                 let prefill: Vec<u8> = (0..[0usize, 0, 1, 9][rng.gen_range(0..4)]).map(|i| 0xE0 + i as u8).collect();
                 let preinit = [0usize, 0, 1, 5, 4096][rng.gen_range(0..5)];
                 let pend_before = ep.st.lock().unwrap().read_pendings;
+                let wakes_before = wake_count.0.load(std::sync::atomic::Ordering::SeqCst);
                 match dut.read(&mut cx, cap, &prefill, preinit) {
                     // Stream-level oracle: an adapter may coalesce, buffer ahead and report an end-of-stream or an error
                     // one call later than its inner stream did; it may not lose, duplicate, reorder or invent anything.
                     ReadOutcome::Pending => {
                         let st = ep.st.lock().unwrap();
-                        if st.read_pendings == pend_before {
-                            problems.push(("read:pending-invented".to_string(), format!("{}: adapter returned Pending although the inner endpoint did not", desc("read"))));
+                        let self_woken = wake_count.0.load(std::sync::atomic::Ordering::SeqCst) > wakes_before;
+                        if st.read_pendings == pend_before && self_woken {
+                            // a cooperative yield: Pending with the caller's waker already woken
+                        } else if st.read_pendings == pend_before {
+                            problems.push(("read:pending-invented".to_string(), format!("{}: adapter returned Pending although the inner endpoint did not, and nobody woke the caller", desc("read"))));
                         } else if received.len() < prefix.len() + st.read_pos && cap > 0 {
                             problems.push(("read:pending-while-holding-undelivered-bytes".to_string(), format!("{}: adapter returned Pending with {} byte(s) it already has and did not deliver", desc("read"), prefix.len() + st.read_pos - received.len())));
                         }
